@@ -25,7 +25,7 @@ pub async fn get_request_addr(stream: &mut TcpStream) -> anyhow::Result<Address>
         match next {
             Proxy::Http(address) => Ok(address),
             Proxy::Https(address) => {
-                let _ = stream.read(&mut [0; 1024]).await?;
+                consume_http_head(stream).await?;
                 stream.write_all(b"HTTP/1.1 200 Connection established\r\n\r\n").await?;
                 Ok(address)
             }
@@ -40,6 +40,26 @@ pub async fn get_request_addr(stream: &mut TcpStream) -> anyhow::Result<Address>
         }
     })
     .await?
+}
+
+/// Consumes exactly the CONNECT request head (up to and including the empty line): whatever follows belongs to the tunnel.
+async fn consume_http_head(stream: &mut TcpStream) -> anyhow::Result<()> {
+    const END: &[u8] = b"\r\n\r\n";
+    let mut buf = [0; 1024];
+    let mut tail: Vec<u8> = Vec::new();
+    loop {
+        let len = stream.peek(&mut buf).await?;
+        if len == 0 {
+            bail!("connection closed inside the request head");
+        }
+        let seen = [&tail[..], &buf[..len]].concat();
+        if let Some(pos) = seen.windows(END.len()).position(|w| w == END) {
+            stream.read_exact(&mut buf[..pos + END.len() - tail.len()]).await?;
+            return Ok(());
+        }
+        stream.read_exact(&mut buf[..len]).await?;
+        tail = seen[seen.len().saturating_sub(END.len() - 1)..].to_vec();
+    }
 }
 
 async fn recognize(stream: &mut TcpStream) -> Result<Proxy, anyhow::Error> {
